@@ -516,3 +516,11 @@ package keeper
 //@ func (Querier) BridgeInfo
 //@   ensures err == nil ==> BridgeInfo == Some(ret0.BridgeInfo)                                                                             // C12: bridge_info_query
 //@   assigns \nothing
+
+// ---- construction of the oracle handler (C15) ----------------------------------------------------------
+// The stake-weighted median of connect is assumed (A-MEDIAN) for the aggregator this constructor wires up:
+// over the recorded L1 validator set (k.HostValidatorStore) and with a power threshold of at least two thirds.
+//@ func NewL2OracleHandler
+//@   ensures $aggThreshold * 3 >= 2 * 1000000000000000000          // C15: per_pair_quorum_is_at_least_two_thirds
+//@   ensures $aggStore == "Keeper.HostValidatorStore"              // C15: median_weighs_the_recorded_l1_validator_set
+//@   assigns \nothing
